@@ -433,9 +433,9 @@ static const KnownDefect KNOWN_DEFECTS[] = {
      "Token::analyzeFirstCharacter: a closure with min >= 1 (and a union) drops the FC_ANY answer of a '.' child, so the first-character set "
      "of e.g. .{1}a is {a}; matches() then skips every start position whose character is not in that set (found with option H)"},
     {"closure-infinite-recursion", "(a*)*b", "X", "a", false, -2, -2,
-     "an unbounded closure whose body is nullable and itself contains an unbounded closure, followed by more pattern: the inner re-entry of the "
-     "outer O_CLOSURE resets Context::fOffsets[id] to -1, which defeats the empty-iteration guard; match() recurses until the stack is exhausted "
-     "(process crash) - e.g. xs:pattern (a*)*b validating the value 'a'"},
+     "an unbounded closure over a nullable body that contains another quantifier ((a*)*b, (a{0,2})+a, ((){2,3})*b ...), followed by more pattern: "
+     "the inner re-entry of the outer O_CLOSURE resets Context::fOffsets[id] to -1, which defeats the empty-iteration guard; match() recurses "
+     "until the stack is exhausted (process crash) - e.g. xs:pattern (a*)*b validating the value 'a'"},
     {"fixedstring-match-end", "a{1}", "", "a", true, 0, 1,
      "fixed-string-only shortcut of matches(): the end of group 0 is computed as start + length of the *pattern source* (fPattern) instead of the "
      "length of the fixed string, so Match::getEndPos(0) is wrong (even beyond the subject) for a{1}, escaped literals and the x option"},
@@ -582,19 +582,6 @@ static bool risky_ast(int t) {
     if (n.op == N_QUANT && QUANTS[n.arg].m < 0 && nullable_ast(n.l)) return true;
     return risky_ast(n.l) || (n.r >= 0 && risky_ast(n.r));
 }
-// unbounded quantifier whose body contains another unbounded quantifier and is nullable: the shape on which the recursion was observed
-static bool has_unbounded(int t) {
-    const Node& n = POOL[t];
-    if (n.op == N_ATOM) return false;
-    if (n.op == N_QUANT && QUANTS[n.arg].m < 0) return true;
-    return has_unbounded(n.l) || (n.r >= 0 && has_unbounded(n.r));
-}
-static bool nested_unbounded_nullable(int t) {
-    const Node& n = POOL[t];
-    if (n.op == N_ATOM) return false;
-    if (n.op == N_QUANT && QUANTS[n.arg].m < 0 && nullable_ast(n.l) && has_unbounded(n.l)) return true;
-    return nested_unbounded_nullable(n.l) || (n.r >= 0 && nested_unbounded_nullable(n.r));
-}
 // In-process guard: SIGSEGV (stack exhaustion) during a guarded matches() call is caught on an alternate stack and control returns
 // to the call site with siglongjmp; the abandoned frames only leak a few small blocks.  Outside guarded calls the previous (sanitizer)
 // handler runs, so every other fault is still reported normally and kills the worker.
@@ -704,7 +691,9 @@ static void run_ast(uint64_t idx, Ctx& c) {
                 ran++;
                 if (v == V_CRASH) {
                     comparable = false;
-                    if (nested_unbounded_nullable(root)) c.count("known_defect:closure-infinite-recursion");
+                    // only ASTs with an unbounded quantifier over a nullable body run guarded: exactly the closures whose empty-iteration
+                    // guard (Context::fOffsets) is the defective mechanism
+                    if (guarded) c.count("known_defect:closure-infinite-recursion");
                     else c.violation("match-crash-" + mname, ast_json(root) + ",\"options\":" + jstr(opts) + ",\"string\":" + jstr(a16(STR.s[i])));
                     continue;
                 }
@@ -1346,5 +1335,10 @@ int main(int argc, char** argv) {
     }
     R.worker_init = install_guard;
     if (a.has("only")) install_guard();
+    if (a.has("from") || a.has("to")) {  // development aid: run only the cases [from,to) of the space (the others are no-ops)
+        uint64_t from = (uint64_t)a.num("from", 0), to = (uint64_t)a.num("to", (long long)R.total);
+        auto inner = R.fn;
+        R.fn = [inner, from, to](uint64_t i, Ctx& c) { if (i >= from && i < to) inner(i, c); else c.count("outside_slice"); };
+    }
     return R.main_tail(a);
 }
